@@ -97,8 +97,11 @@ def make_profile(rng, world, knobs=None):
             fixed_effects = fes
     mp = {}
     om = chance(rng, k["outlier_models_p"])
-    mp["fit_margin_outlier_model"] = om
+    # the two switches are independent settings: mostly equal, sometimes only one of them on
+    mp["fit_margin_outlier_model"] = om if not chance(rng, 0.3) else (not om if chance(rng, k["outlier_models_p"] * 2) else om)
     mp["fit_turnout_outlier_model"] = om
+    if om and chance(rng, 0.3):
+        mp["fit_turnout_outlier_model" if chance(rng, 0.5) else "fit_margin_outlier_model"] = False
     lo, hi = choice(rng, k["tf_limits"])
     if (lo, hi) != (0.5, 2.0):
         mp["turnout_factor_lower"], mp["turnout_factor_upper"] = lo, hi
@@ -127,6 +130,10 @@ def make_profile(rng, world, knobs=None):
             mp["agg_model_hard_threshold"] = False
         if chance(rng, 0.3):
             mp["national_summary_correlation"] = False
+        if chance(rng, 0.25):
+            mp["percent_expected_vote_error_bound"] = choice(rng, [0.1, 0.3, 0.6, 0.49])
+        if chance(rng, 0.1):
+            mp["z_unobserved_upper_bound"], mp["z_unobserved_lower_bound"] = 2.0, 0.25
     if pi != "bootstrap" and chance(rng, k["lambda_p"]):
         mp["lambda_"] = choice(rng, [0.01, 1.0])
     if pi != "bootstrap" and chance(rng, 0.25):
